@@ -410,7 +410,7 @@ func runCase(r *mon.Run, idx int) {
 }
 
 func Run(r *mon.Run) {
-	r.Rule = "each case: one broker, 10-70 numbered operator lines (empty, 1 B-128 KiB, embedded newlines as produced by Ctrl+I inserts, all byte values, invalid UTF-8, format verbs), entered directly or through opshell.ChanWriter, free-running or in lock-step (next line only after the previous was seen written and flushed), while a series of 1-8 shells (uni/bidirectional; writer kinds plain, http.Flusher, FlushError, both) attach and end by context cancel, peer EOF, peer cancel, k-th write failing (complete or short) or k-th flush failing, with lines entered while no shell is attached. The recorded Write/Flush events of all writers, in global order, are replayed against the entered sequence: exact bytes, no gap, no duplicate, no reorder, only a line whose own write failed may be missing, flush before the next line. A final healthy shell must receive everything still queued. distinct = distinct (shell plans, line count, mode, capacity); all are non-trivial (>= 10 lines, >= 1 shell)"
+	r.Rule = "each case: one broker, 10-70 numbered operator lines (empty, 1 B-128 KiB, embedded newlines as produced by Ctrl+I inserts, all byte values, invalid UTF-8, format verbs), entered directly or through opshell.ChanWriter, free-running or in lock-step (next line only after the previous was seen written and flushed), while a series of 1-8 shells (uni/bidirectional; writer kinds plain, http.Flusher, FlushError, both) attach and end by context cancel, peer EOF, peer cancel, k-th write failing (complete or short) or k-th flush failing, with lines entered while no shell is attached. The recorded Write/Flush events of all writers, in global order, are replayed against the entered sequence: exact bytes, no gap, no duplicate, no reorder, only a line whose own write failed may be missing, flush before the next line. A final healthy shell must receive everything still queued. distinct = distinct (shell plans, line count, mode, capacity); all are non-trivial (>= 10 lines, >= 1 shell). Engine pty: the real binary on a pseudo-terminal; numbered lines are pasted at the prompt while no shell is attached (fewer than, exactly about, and several hundred more than the 1024 the line queue holds), then a fake shell attaches over raw TLS (/i/{id} or /io) and must read exactly the entered sequence; 2-3 generations per session, each followed by lock-step lines typed with the shell attached"
 	r.Assumptions = []string{"a line whose flush failed counts as written (the harness writer has already recorded its bytes)"}
 	n := r.N(800, 20000)
 	if r.WantEngine("series") {
@@ -422,6 +422,9 @@ func Run(r *mon.Run) {
 	}
 	if r.WantEngine("http") {
 		httpSessions(r)
+	}
+	if r.WantEngine("pty") {
+		ptySessions(r)
 	}
 	r.Floor("lines_delivered", 5000)
 	r.Floor("shells", 1000)
